@@ -188,6 +188,43 @@ def _run(cmd, cwd=None, timeout=1800, env=None, input=None):
         return 124, (out or "") + "\nTIMEOUT after %ss: %s" % (timeout, " ".join(cmd[:3]))
 
 
+class HarnessTimeout(Exception):
+    pass
+
+
+class _watchdog:
+    """the implementation under test may hang (a blocking queue, a finalizer, a lost wake-up): the suite is then abandoned
+    after `limit` seconds and reported as a failed correspondence obligation instead of hanging the check"""
+
+    def __init__(self, limit, what):
+        self.limit, self.what = limit, what
+
+    def __enter__(self):
+        import signal
+
+        def on_alarm(_sig, _frm):
+            raise HarnessTimeout("%s did not finish within %d s (the implementation under test hangs or is far slower "
+                                 "than on the unchanged tree)" % (self.what, self.limit))
+        try:
+            self.old = signal.signal(signal.SIGALRM, on_alarm)
+            # fires again every 5 s: an exception raised inside a finalizer or swallowed by a bare `except:` of the code under
+            # test does not end the wait, the next one may
+            signal.setitimer(signal.ITIMER_REAL, self.limit, 5)
+        except Exception:
+            self.old = None
+        return self
+
+    def __exit__(self, *a):
+        import signal
+        try:
+            signal.setitimer(signal.ITIMER_REAL, 0, 0)
+            if self.old is not None:
+                signal.signal(signal.SIGALRM, self.old)
+        except Exception:
+            pass
+        return False
+
+
 class _Lock:
     """Cross-process lock on coq/.lock, re-entrant within one process."""
     depth = 0
@@ -616,7 +653,8 @@ def _do_check(mod, ctx: Ctx) -> int:
     ctx.driver = driver
     if hasattr(mod, "correspond") and (driver or not getattr(mod, "EXTRACT", None)):
         try:
-            res = mod.correspond(ctx)
+            with _watchdog(int(os.environ.get("VERIF_CORR_LIMIT", "1500" if not ctx.thorough else "10800")), "correspondence"):
+                res = mod.correspond(ctx)
             corr = res if isinstance(res, list) else [res]
         except Exception:
             import traceback
@@ -680,7 +718,8 @@ def _do_check(mod, ctx: Ctx) -> int:
                 break
         if case is None and hasattr(mod, "search"):
             try:
-                case = mod.search(ctx, hints)
+                with _watchdog(int(os.environ.get("VERIF_SEARCH_LIMIT", "600")), "violation search"):
+                    case = mod.search(ctx, hints)
             except Exception:
                 import traceback
                 ctx.notes.append("search raised: " + traceback.format_exc()[-800:])
